@@ -389,8 +389,10 @@ type seqBulkLoader struct{ r *seqRun }
 func (l seqBulkLoader) outcome() (map[int]int, error) {
 	op := l.r.cur
 	m := map[int]int{}
+	// the n-th bulk loader invocation of one operation supplies distinguishable values
+	off := (len(l.r.loads) - 1) * l.r.cfg.NK
 	for _, k := range op.Supply {
-		m[k] = op.V + k
+		m[k] = op.V + k + off
 	}
 	switch op.Shape {
 	case "map":
